@@ -388,10 +388,10 @@ var checks = map[string]Check{
 	},
 	"C17": {
 		Level:       "model_checking",
-		Rule:        "full product {call,push} x secure marker {absent,true,false} x accept marker {absent,true,false} x key pair {same 16/24/32 bytes, different} x value length {0,1,15,16,17,100} for the json and xml body codecs on live sessions under every non-preemptive schedule; oracle: handler argument/caller result equality, plaintext substring search on the captured wire in both directions, reply encrypted iff requested, different key => no handler/no result and non-OK, unmarked traffic byte-identical to a run without the plugin",
+		Rule:        "full product {call,push} x secure marker {absent,true,false} x accept marker {absent,true,false} x key pair {same 16/24/32 bytes, different} x value length {0,1,15,16,17,100} for the json and xml body codecs over the raw protocol and the json codec over the json and pb protocols, on live sessions under every non-preemptive schedule; oracle: handler argument/caller result equality, plaintext substring search on the captured wire in both directions, reply encrypted iff requested, different key => no handler/no result and non-OK, unmarked traffic byte-identical to a run without the plugin",
 		Assumptions: baseAssumptions,
 		Jobs: func(tier string) []Job {
-			js := []Job{sched("c17", "codec=json", 0, 2), sched("c17", "codec=xml", 0, 2)}
+			js := []Job{sched("c17", "codec=json", 0, 2), sched("c17", "codec=xml", 0, 2), sched("c17", "codec=json,proto=json", 0, 2), sched("c17", "codec=json,proto=pb", 0, 2)}
 			// a secure call/push that is re-sent after a redial from the write path is delivered intact exactly once
 			b := 1
 			if tier == "thorough" {
